@@ -645,6 +645,74 @@ TRANSCRIBED = {
 }
 
 
+BASELINE_FILE = os.path.join(os.path.dirname(os.path.abspath(__file__)), "c03_baseline.json")
+
+
+def method_hashes():
+    """normalised-AST hash of every _getitem / _get_indices / _diagonal override of the tree under test, of the defaults in
+    LinearOperator (and __getitem__) and of the helper functions of utils/getitem.py and utils/permutation.py: a change INSIDE
+    an existing override (a new branch, a new fast path) shows up as a different hash"""
+    import ast
+    import hashlib
+    import inspect
+    import textwrap
+    import linear_operator.operators as O
+    from linear_operator.operators._linear_operator import LinearOperator
+    from linear_operator.utils import getitem as G, permutation as P
+
+    def h(fn):
+        try:
+            tree = ast.parse(textwrap.dedent(inspect.getsource(fn)))
+        except Exception:      # noqa
+            return None
+        f = tree.body[0]
+        body = f.body
+        if body and isinstance(body[0], ast.Expr) and isinstance(getattr(body[0], "value", None), ast.Constant) \
+                and isinstance(body[0].value.value, str):
+            body = body[1:]                                   # docstring
+        return hashlib.sha1("\n".join(ast.dump(x) for x in body).encode()).hexdigest()[:16]
+    out = {}
+    for name, cls in inspect.getmembers(O, inspect.isclass):
+        if not issubclass(cls, LinearOperator):
+            continue
+        short = name.replace("LinearOperator", "") or "LinearOperator"
+        for m in METHODS + (("__getitem__",) if cls is LinearOperator else ()):
+            if m in cls.__dict__:
+                out["%s.%s" % (short if cls is not LinearOperator else "LinearOperator(default)", m)] = h(cls.__dict__[m])
+    from linear_operator.operators import block_linear_operator
+    for m in METHODS:
+        if m in block_linear_operator.BlockLinearOperator.__dict__:
+            out["Block.%s" % m] = h(block_linear_operator.BlockLinearOperator.__dict__[m])
+    for mod, tag in ((G, "utils.getitem"), (P, "utils.permutation")):
+        for fname, fn in inspect.getmembers(mod, inspect.isfunction):
+            if fn.__module__ == mod.__name__:
+                out["%s.%s" % (tag, fname)] = h(fn)
+    return out
+
+
+def write_override_baseline():
+    """regenerate harness/c03_baseline.json from the tree under test (run by hand after /repo has legitimately changed:
+    VERIF_REPO=/repo PYTHONPATH=/repo:/verif /venv/bin/python -c 'from harness import c03; c03.write_override_baseline()')"""
+    import linear_operator
+    data = {"tree": os.path.dirname(os.path.dirname(os.path.abspath(linear_operator.__file__))), "hashes": method_hashes()}
+    with open(BASELINE_FILE, "w") as f:
+        json.dump(data, f, indent=1, sort_keys=True)
+    return data
+
+
+def override_drift():
+    """(drift, new, removed): methods whose body differs from the baseline / that are not in the baseline / that disappeared"""
+    try:
+        base = json.load(open(BASELINE_FILE))["hashes"]
+    except Exception:      # noqa
+        return [], [], []
+    cur = method_hashes()
+    drift = sorted(k for k in cur if k in base and cur[k] != base[k])
+    new = sorted(k for k in cur if k not in base)
+    removed = sorted(k for k in base if k not in cur)
+    return drift, new, removed
+
+
 def override_table():
     """which operator classes of the tree under test override _getitem / _get_indices / _diagonal (introspection)"""
     import inspect
@@ -724,7 +792,11 @@ def tree_classes_plain(e):
 def stage_e2e(ctx, rng):
     insts = instances(ctx)
     actual, new_over, gone_over, untranscribed = override_table()
-    widen_tags = classes_with_new_overrides(new_over) if new_over else set()
+    drift, new_by_hash, removed_by_hash = override_drift()
+    # class-level methods that are new or whose body changed: their classes get the full index family in quick as well
+    cls_level = [x for x in set(new_over) | set(drift) | set(new_by_hash)
+                 if not x.startswith(("utils.", "LinearOperator(default)"))]
+    widen_tags = classes_with_new_overrides(cls_level) if cls_level else set()
     cases = []
     defs = {}
     stats = {"e2e_evaluations": 0, "e2e_unsupported": 0, "e2e_direct_failures": 0, "e2e_denotation_mismatch_instances": 0,
@@ -835,6 +907,9 @@ def stage_e2e(ctx, rng):
     stats["e2e_distinct_cells"] = len(cells_seen)
     stats["e2e_kind_histogram"] = kind_hist
     stats["e2e_classes"] = len(per_cls_count)
+    stats["overrides_drift"] = drift
+    stats["overrides_new_vs_baseline_file"] = new_by_hash
+    stats["overrides_removed_vs_baseline_file"] = removed_by_hash
     stats["overrides_new"] = new_over
     stats["overrides_removed"] = gone_over
     stats["overrides_not_transcribed"] = untranscribed
@@ -861,8 +936,129 @@ def declared_unsupported(e, items, r):
 
 # ------------------------------------------------------------------------------------------ diagonal
 
+def tri_expr(rng, batch, n, upper):
+    t = ob.tt(ob.rand_t(rng, batch + [n, n], -2, 2))
+    t = torch.triu(t) if upper else torch.tril(t)
+    t = t - torch.diag_embed(torch.diagonal(t, dim1=-2, dim2=-1)) + torch.diag_embed(ob.tt(ob.rand_t(rng, batch + [n], 1, 3)))
+    return {"cls": "Triangular", "t": ob.from_torch(t), "upper": bool(upper)}
+
+
+FACTORS = ["TriL", "TriU", "Diag", "ConstantDiag", "Dense", "Root", "Kron", "Toeplitz", "Chol", "Identity"]
+
+
+def factor_expr(rng, name, batch, n):
+    """a square n x n factor of a class with a structure-specific shortcut somewhere in the library"""
+    if name in ("TriL", "TriU"):
+        return tri_expr(rng, batch, n, name == "TriU")
+    if name == "Dense":
+        return {"cls": "Dense", "t": ob.rand_t(rng, batch + [n, n])}
+    if name == "Kron":
+        return {"cls": "Kron", "ops": [{"cls": "Dense", "t": ob.rand_t(rng, batch + [2, 2])},
+                                       {"cls": "Dense", "t": ob.rand_t(rng, batch + [n // 2, n // 2])}]}
+    return ob.gen(rng, name, batch=batch, m=n)
+
+
+def diag_family(ctx):
+    """the _diagonal family: composites over EVERY ORDERED PAIR of factor classes that have structure-specific shortcuts
+    (isinstance tests on the children in _diagonal / _getitem / __add__ / matmul): Matmul and Sum over all pairs, the
+    triangular orientations in all four combinations also batched and with broadcasting batch shapes, unary composites
+    (Root, ConstantMul, SumBatch, BlockDiag) over every factor class.  Structure is fixed; the seed draws the values."""
+    rng = random.Random(ctx.seed * 104729 + 23)
+    n = 4
+    out = []
+    F = lambda name, batch=(): factor_expr(rng, name, list(batch), n)
+    for a in FACTORS:
+        for b in FACTORS:
+            out.append(("d|Matmul(%s,%s)" % (a, b), {"cls": "Matmul", "l": F(a), "r": F(b)}))
+            out.append(("d|Sum(%s,%s)" % (a, b), {"cls": "Sum", "ops": [F(a), F(b)]}))
+    small = ["TriL", "TriU", "Diag", "Dense", "Root"]
+    for a in small:
+        for b in small:
+            out.append(("d|Matmul(%s,%s)[2]" % (a, b), {"cls": "Matmul", "l": F(a, [2]), "r": F(b, [2])}))
+    for a in ("TriL", "TriU"):
+        for b in ("TriL", "TriU"):
+            out.append(("d|Matmul(%s[2],%s[])" % (a, b), {"cls": "Matmul", "l": F(a, [2]), "r": F(b)}))
+            out.append(("d|Matmul(%s[],%s[2,1])" % (a, b), {"cls": "Matmul", "l": F(a), "r": F(b, [2, 1])}))
+    for a in FACTORS:
+        out.append(("d|Root(%s)" % a, {"cls": "Root", "root": F(a)}))
+        out.append(("d|ConstantMul(%s)" % a, {"cls": "ConstantMul", "base": F(a), "c": ob.rand_t(rng, [], 1, 3)}))
+        out.append(("d|SumBatch(%s[2])" % a, {"cls": "SumBatch", "base": F(a, [2]), "block_dim": -3}))
+        out.append(("d|BlockDiag(%s[2])" % a, {"cls": "BlockDiag", "base": F(a, [2]), "block_dim": -3}))
+    return out
+
+
+# composites produced by PUBLIC operations (the result class is whatever the library's dispatch picks)
+def recipe_build(rc):
+    a = ob.build(rc["a"])
+    k = rc["recipe"]
+    if k == "matmul":
+        return a @ ob.build(rc["b"])
+    if k == "matmul_mT":
+        return a @ a.mT
+    if k == "mT_matmul":
+        return a.mT @ a
+    if k == "add":
+        return a + ob.build(rc["b"])
+    if k == "add_jitter":
+        return a.add_jitter(1.0)
+    if k == "add_diagonal":
+        return a.add_diagonal(ob.tt(rc["d"]))
+    if k == "chol_product":
+        c = a.cholesky()
+        return c @ c.mT
+    if k == "mul_const":
+        return a * 3.0
+    raise ValueError(k)
+
+
+def recipe_dense(rc):
+    A = ob.dense(rc["a"])
+    k = rc["recipe"]
+    eye = torch.eye(A.shape[-1], dtype=A.dtype)
+    if k == "matmul":
+        return A @ ob.dense(rc["b"])
+    if k == "matmul_mT":
+        return A @ A.mT
+    if k == "mT_matmul":
+        return A.mT @ A
+    if k == "add":
+        return A + ob.dense(rc["b"])
+    if k == "add_jitter":
+        return A + eye
+    if k == "add_diagonal":
+        return A + torch.diag_embed(ob.tt(rc["d"]).expand(A.shape[:-1]))
+    if k == "chol_product":
+        return A
+    if k == "mul_const":
+        return A * 3.0
+    raise ValueError(k)
+
+
+def recipes(ctx):
+    rng = random.Random(ctx.seed * 7 + 91)
+    n = 4
+    out = []
+    F = lambda name, batch=(): factor_expr(rng, name, list(batch), n)
+    for batch in ([], [2]):
+        for a in ("TriL", "TriU", "Chol", "Diag", "Dense"):
+            out.append({"recipe": "matmul_mT", "a": F(a, batch)})
+            out.append({"recipe": "mT_matmul", "a": F(a, batch)})
+        for a in FACTORS:
+            out.append({"recipe": "add_jitter", "a": F(a, batch)})
+            out.append({"recipe": "add_diagonal", "a": F(a, batch), "d": ob.rand_t(rng, batch + [n], 1, 3)})
+            out.append({"recipe": "mul_const", "a": F(a, batch)})
+        for a in ("Dense", "Root", "Toeplitz", "Kron"):
+            out.append({"recipe": "chol_product", "a": ob.gen(rng, a, batch=batch, m=n, psd=True) if a != "Kron" else
+                        {"cls": "Kron", "ops": [ob.gen(rng, "Dense", batch=batch, m=2, psd=True), ob.gen(rng, "Dense", batch=batch, m=2, psd=True)]}})
+    for a in FACTORS:
+        for b in FACTORS:
+            out.append({"recipe": "matmul", "a": F(a), "b": F(b)})
+            out.append({"recipe": "add", "a": F(a), "b": F(b)})
+    return out
+
+
 def stage_diag(ctx, rng):
-    insts = instances(ctx)
+    insts = instances(ctx) + diag_family(ctx)
     lits, meta = [], []
     stats = {"diag_evaluations": 0, "diag_direct_failures": 0, "diag_unsupported": 0}
     for tag, e in insts:
@@ -906,12 +1102,52 @@ def stage_diag(ctx, rng):
             ctx.violation({"kind": "diagonal-differs-from-dense", "layer": "L4", "expr": e, "debug": dbg,
                            "observed": obs_json(r), "expected": obs_json(exp) if exp else "explicit not-square error",
                            "describe": ob.describe(e)}, key=case_key(e, "diagonal", fk, op="diagonal", debug=dbg))
+    stats["diag_family_instances"] = len(insts) - len(instances(ctx))
+    # ---- diagonal() of composites produced by public operations
+    from linear_operator import settings
+    stats["diag_recipe_cases"] = 0
+    rclasses = {}
+    for rc in recipes(ctx):
+        try:
+            op = recipe_build(rc)
+            D = recipe_dense(rc)
+        except Exception:      # noqa  the public operation itself is not C03's business
+            continue
+        if torch.is_tensor(op) or not is_integral(D):
+            continue
+        D = rint(D)
+        exp = ("ok", torch.diagonal(D, dim1=-2, dim2=-1))
+        rclasses[type(op).__name__] = rclasses.get(type(op).__name__, 0) + 1
+        for dbg in (True, False):
+            with settings.debug(dbg):
+                try:
+                    r = op.diagonal()
+                    r = ("ok", rint(r) if is_integral(r) else r.detach(), r.dtype)
+                except Exception as ex:       # noqa
+                    r = ("err", type(ex).__name__, str(ex)[:160])
+            stats["diag_evaluations"] += 1
+            stats["diag_recipe_cases"] += 1
+            fk = fail_kind(r, exp)
+            if fk is None:
+                lits.append("DC %s %s" % (tlit_of(D), otensor_lit(r)))
+                meta.append((rc, dbg, r))
+                continue
+            stats["diag_direct_failures"] += 1
+            kids = ",".join(sorted({rc["a"]["cls"]} | ({rc["b"]["cls"]} if "b" in rc else set())))
+            ctx.violation({"kind": "diagonal-differs-from-dense", "layer": "L4-recipe", "recipe": rc, "debug": dbg,
+                           "result_class": type(op).__name__, "observed": obs_json(r), "expected": obs_json(exp),
+                           "describe": "%s(%s)" % (rc["recipe"], kids)},
+                          key={"op": "diagonal", "cls": "recipe:" + rc["recipe"], "kids": kids, "fail": fk, "debug": dbg,
+                               "result_class": type(op).__name__,
+                               "chol_upper": any(x.get("cls") == "Chol" and x.get("upper") for x in (rc["a"], rc.get("b", {}))),
+                               "has_chol": any(x.get("cls") == "Chol" for x in (rc["a"], rc.get("b", {})))})
+    stats["diag_recipe_result_classes"] = rclasses
     shards = [("diag_%d" % (i // SH), shard([], "diag_case", lits[i:i + SH], "bad_diag"), len(lits[i:i + SH]))
               for i in range(0, len(lits), SH)]
     bad = run_shards(ctx, "L4d", shards)
     for b in (bad or [])[:5]:
         e, dbg, r = meta[b]
-        ctx.violation({"kind": "model-implementation-disagreement", "layer": "L4-diagonal", "expr": e, "debug": dbg,
+        ctx.violation({"kind": "model-implementation-disagreement", "layer": "L4-diagonal", ("recipe" if "recipe" in e else "expr"): e, "debug": dbg,
                        "observed": obs_json(r), "correspondence": "coq/C03/Check.v diag_ok"}, no_input=True)
     stats["diag_coq_cases"] = len(lits)
     return stats
@@ -1098,6 +1334,23 @@ def run(ctx):
 
 def replay(rp):
     torch.set_num_threads(1)
+    if "recipe" in rp:
+        from linear_operator import settings
+        rc = rp["recipe"]
+        op = recipe_build(rc)
+        D = rint(recipe_dense(rc))
+        with settings.debug(bool(rp.get("debug"))):
+            try:
+                r = op.diagonal()
+                r = ("ok", rint(r) if is_integral(r) else r.detach(), r.dtype)
+            except Exception as ex:      # noqa
+                r = ("err", type(ex).__name__, str(ex)[:160])
+        exp = ("ok", torch.diagonal(D, dim1=-2, dim2=-1))
+        fk = fail_kind(r, exp)
+        print("recipe:", rc["recipe"], ob.describe(rc["a"]), ob.describe(rc["b"]) if "b" in rc else "", "->", type(op).__name__)
+        print("diagonal ->", obs_json(r), "expected", obs_json(exp))
+        print("property failure: " + fk if fk else "property holds on this case")
+        return 1 if fk else 0
     if "expr" not in rp:
         print("replay: nothing to re-run for kind", rp.get("kind"))
         print(json.dumps(rp, indent=1)[:2000])
